@@ -10,8 +10,8 @@ instances (base, CLike, D) are regenerated from the live classes into
 `MesonModel/Generated/ArgTables.lean` on every run.
 
 Python quirks that are kept:
-* `__iadd__` tests a once-only argument against `_container`, `pre`, `post` -- *not* against the
-  `tmp_pre` deque of the running batch;
+* (`__iadd__` tests a once-only argument against `_container`, `pre`, `post` and, since the repair
+  661f340, also against the `tmp_pre` deque of the running batch;)
 * `__len__` does not flush;
 * `__eq__` against another `CompilerArgs` flushes only `self`;
 * `to_native(copy=False)` of the C-like class inserts the group markers into `self`.
@@ -180,7 +180,7 @@ def iaddLoop (K : Classify) (cont pre : List Arg) :
     List Arg → List Arg → List Arg → Bool → List Arg × List Arg × Bool
   | [], tmp, post, noc => (tmp, post, noc)
   | a :: as, tmp, post, noc =>
-    if K.dd a = .unique ∧ (a ∈ cont ∨ a ∈ pre ∨ a ∈ post) then
+    if K.dd a = .unique ∧ (a ∈ cont ∨ a ∈ pre ∨ a ∈ post ∨ a ∈ tmp) then
       iaddLoop K cont pre as tmp post noc
     else
       let noc' := noc || decide (K.dd a = .overridden)
